@@ -45,8 +45,8 @@ def read_file_decision(max_file_size, forged_size, pass_default=False):
             return st
         pathlib.Path.stat = fake_stat
         try:
-            gen = sharepoint2text.read_file(fp) if pass_default else sharepoint2text.read_file(fp, max_file_size=max_file_size)
-            try:
+            try:    # the call itself belongs to the observation: a guard that runs at call time raises here
+                gen = sharepoint2text.read_file(fp) if pass_default else sharepoint2text.read_file(fp, max_file_size=max_file_size)
                 next(gen)
                 return "accept"
             except ExtractionFileTooLargeError:
@@ -57,6 +57,30 @@ def read_file_decision(max_file_size, forged_size, pass_default=False):
                 return "ERR:" + type(e).__name__
         finally:
             pathlib.Path.stat = real_stat
+
+
+def read_file_deferred(max_file_size, size_at_call, size_at_read):
+    """History: obtain the result of read_file() on a genuine `size_at_call`-byte .txt file, THEN replace the file's
+    content by `size_at_read` bytes, THEN consume the result. Returns (decision, characters of text delivered):
+    the limit is a statement about the file that is read, whenever the library chooses to look at it."""
+    import sharepoint2text
+    from sharepoint2text.parsing.exceptions import ExtractionFileTooLargeError
+    with tempfile.TemporaryDirectory(prefix="s2t_c12_") as td:
+        fp = os.path.join(td, "f.txt")
+        with open(fp, "wb") as fh:
+            fh.write(b"a" * size_at_call)
+        try:
+            gen = sharepoint2text.read_file(fp, max_file_size=max_file_size)
+            with open(fp, "wb") as fh:
+                fh.write(b"b" * size_at_read)
+            got = 0
+            for r in gen:
+                got += len(r.get_full_text())
+            return "accept", got
+        except ExtractionFileTooLargeError:
+            return "reject", 0
+        except Exception as e:
+            return "ERR:" + type(e).__name__, 0
 
 
 def read_file_sparse_decision(max_file_size, size):
